@@ -3,7 +3,7 @@ from .. import scheme as K
 from .. import pyspec as S
 ID = "C11"
 RULE = ("for each of the 6 sets x 3 containers: from_bytes/to_bytes on generated keys and on random byte strings of the right length, "
-        "and on lengths N-1, N+1, 0, 1 and the sizes of the other containers (must be refused); the pair's byte form must be "
+        "on lengths N-1, N+1, 0, 1, the sizes of the other containers and (harness-side loop) EVERY length 0..N+64 (must be refused); the pair's byte form must be "
         "sk || pk; round-tripped keys must give the same signatures and verification decisions. distinct_nontrivial = distinct requests.")
 EXPLANATION = "Props/C11.lean proves the container identities and the refusal of every wrong length in the model; the tie runs all 18 containers."
 ASSUMPTIONS = ["`refused` = the Rust `expect` panic, observed through catch_unwind"]
@@ -43,6 +43,9 @@ def followup(stage, lines, model, checked, release, tier, rng):
         L.append("%s::SecretKey::roundtrip %s" % (a, K.hx(R(p.sk))))
         L.append("%s::PublicKey::roundtrip %s" % (a, K.hx(R(p.pk))))
         L.append("%s::Keypair::roundtrip %s" % (a, K.hx(R(p.sk + p.pk))))
+        # every length from 0 to N + 64 (harness-side loop): the only accepted length must be N
+        for (ty, n) in (("SecretKey", p.sk), ("PublicKey", p.pk), ("Keypair", p.sk + p.pk)):
+            L.append("@impl %s::%s::accepted_lengths %d" % (a, ty, n + 64))
         # behaviour through the containers: API sign/verify (which go through from_bytes) = raw functions on the same bytes
         msg = R(40)
         L.append(K.api_sign(s, sk, msg))
@@ -68,6 +71,19 @@ def violated(line, checked, release):
 
 def violated_all(lines, model, checked, release):
     out = []
+    for i, l in enumerate(lines):
+        if "::accepted_lengths " in l:
+            t = l.split()
+            parts = t[1].split("::")
+            s = [k for k, v in K.API.items() if v == parts[0]][0]
+            p = S.P(s)
+            n = {"SecretKey": p.sk, "PublicKey": p.pk, "Keypair": p.sk + p.pk}[parts[1]]
+            for prof, ans in (("checked", checked), ("wrapping", release)):
+                if ans[i] != "ok %d" % n:
+                    got = ans[i][3:].split(",") if ans[i].startswith("ok ") else [ans[i]]
+                    extra = [x for x in got if x != str(n)]
+                    out.append((i, "%s build: %s::%s::from_bytes accepts byte strings of length %s (standard length %d)" %
+                                (prof, parts[0], parts[1], ",".join(extra[:6]) or "none at all", n)))
     for i in range(len(lines) - 1):
         if "::SecretKey::sign " in lines[i] and lines[i + 1].startswith("sign::"):
             for prof, ans in (("checked", checked), ("wrapping", release)):
